@@ -3,6 +3,7 @@
   Model: `Snmp.Usm.processIncoming`, for every MAC, localisation and privacy function.
 -/
 import Snmp.Model.Usm
+import Snmp.Model.V3Glue
 namespace Snmp.Props.C09
 open Snmp Snmp.Usm
 
@@ -148,5 +149,29 @@ theorem C09_same_result (cr : Crypto) (c : Creds) (pw : Bytes) (hc : c.auth = so
   have : a = im := by
     cases a; cases im; simp_all
   rw [this]; exact h
+
+/-- The same from the octets on: whatever `V3MPM.decode` (glue, `reset_raw_digest`,
+    `process_incoming_message`, as modelled from the raw datagram) returns for a user with an
+    authentication key was a message whose digest field — located in the datagram as received — is
+    the MAC, under the user's localised key, of that datagram with exactly those twelve octets
+    zeroed; the flags state authentication and the user name is the credential's. -/
+theorem C09_wire_accept_auth (cr : Crypto) (c : Creds) (pw : Bytes) (hc : c.auth = some pw) (data : Bytes) (fuel : Nat)
+    (s : Spec.ScopedPdu) (h : V3Glue.incoming cr c data fuel = .ok s) :
+    ∃ m z, V3Glue.v3OfBytes data fuel = .ok m ∧ RawDigest.resetRawDigest data = .ok z ∧
+      authFlag m = true ∧ m.user = c.user ∧ m.authParams = cr.mac (cr.loc pw m.engineId) z := by
+  unfold V3Glue.incoming at h
+  cases hm : V3Glue.v3OfBytes data fuel with
+  | error e => simp [hm] at h
+  | ok m =>
+    simp only [hm] at h
+    cases hp : processIncoming cr c (inMsgOfWire m data) with
+    | error e => simp [hp] at h
+    | ok s' =>
+      obtain ⟨haf, hu, z, hz, hmac⟩ := C09_accept_auth cr c pw hc (inMsgOfWire m data) s' hp
+      refine ⟨m, z, rfl, ?_, haf, hu, hmac⟩
+      simp only [inMsgOfWire] at hz
+      cases hr : RawDigest.resetRawDigest data with
+      | error e => simp [hr] at hz
+      | ok z' => simp [hr] at hz; rw [hz]
 
 end Snmp.Props.C09
